@@ -105,6 +105,20 @@ def run(chk, tier):
     # the C route for the plain levels (the optimised FOAM also goes through the C generator)
     routes += [("c " + " ".join(c["opts"]), "c", None, tuple(c["opts"])) for c in chosen if len(c["opts"]) == 1]
     progcheck.replay(chk, b, fam, routes, wd)
+    # a wider set of programs (incl. the exception-dense and store-dense sub-families) under the level options only
+    nwide = 60 if tier == "quick" else 600
+    wide = progen.generate((chk.seed + 17) % 1000003, nwide // 2)
+    for i in range(nwide // 4):
+        g = progen.ProgGen(((chk.seed + 19) % 1000003) * 100003 + i, emph=("try",))
+        g.feat |= {"try", "fun"}
+        g.exns = g.exns or ["Ex0", "Ex1", "Ex2"]
+        wide.append(g.program("wx%d" % i))
+        g = progen.ProgGen(((chk.seed + 23) % 1000003) * 100003 + i, emph=("store",))
+        g.feat |= {"arr", "rec", "fun", "un"}
+        wide.append(g.program("ws%d" % i))
+    famw = progcheck.Family(chk, wide, "wide", workers=vlib.NCPU, timeout=1500)
+    lvl = [c for c in chosen if len(c["opts"]) == 1 and c["opts"][0] in ("-Q0", "-Q2", "-Q3", "-Q5", "-Q9", "-O")]
+    progcheck.replay(chk, b, famw, [("interp " + c["opts"][0], "interp", None, tuple(c["opts"])) for c in lvl], wd)
     # schedule trace (drift-only): which passes really ran for each configuration
     drift = []
     ran = {}
